@@ -559,7 +559,7 @@ func runL2(c Case, ev *evid.Collector) (vs []*evid.Violation, inconclusive strin
 	f, lackInj, spoiled := 0, 0, false
 	hit := map[string]bool{}
 	for _, e := range es {
-		if e.Fault == "" && e.Status >= 400 && e.Status != 404 && e.Status != 416 && e.Status != 401 && !sentIgnoreErr(e) {
+		if (e.Fault == "" || w.classify(e).kind == "noeffect") && e.Status >= 400 && e.Status != 404 && e.Status != 416 && e.Status != 401 && !sentIgnoreErr(e) {
 			// a natural error status of the server (refused monolithic PUT, unsupported method ...) is
 			// counted by the client's per-host back-off counter like a fault: it uses up the budget
 			f++
